@@ -53,6 +53,12 @@ def run(ctx):
     jobs.append({'seeds': ['C=C', 'CC'], 'rules': [SMARTS[0], SMARTS[6]], 'timeout': 300})
     jobs.append({'seeds': ['C=C'], 'rules': [SMARTS[4], SMARTS[6]], 'timeout': 300})
     jobs.append({'seeds': ['C'], 'rules': [SMARTS[0], RING[0]], 'timeout': 300})
+    # seeds that share a heavy-atom skeleton (closed shell / radical, chain / ring), in both orders, with rules that do not regenerate them:
+    # every seed is a species of the network
+    for seeds, rules in ((['CC', '[CH2]C'], [RING[1]]), (['[CH2]C', 'CC'], [RING[1]]), (['C', '[CH3]'], [RING[1]]), (['CO', 'C[O]'], [RING[1]]),
+                         (['CCC', 'C1CC1'], [RING[0]]), (['C1CC1', 'CCC'], [RING[0]]), (['CC', 'C=C', '[CH2][CH2]'], [RING[3]]),
+                         (['CCO', 'CC[O]', '[CH2]CO'], [RING[2]])):
+        jobs.append({'seeds': seeds, 'rules': rules, 'timeout': 300})
     # a network generated after another one in the same process, the same species written with another atom order
     for warm, seeds, rules in ((['CCO'], ['OCC'], [RING[1]]), (['CO'], ['OC'], [RING[0]]), (['CC=C'], ['C=CC'], [RING[0], RING[1]]),
                                (['CCO'], ['C(O)C'], [RING[3], RING[2]]), (['OCC'], ['CCO'], [SMARTS[1], SMARTS[3]]), (['CCC'], ['CC'], [RING[0]])):
